@@ -111,6 +111,16 @@ def main(argv):
     except ValueError:
         seed = 0
     jobs = args.jobs if args.jobs is not None else (min(16, os.cpu_count() or 1) if args.tier == "thorough" else min(4, os.cpu_count() or 1))
+    if args.replay:
+        try:
+            import json
+
+            rp = json.load(open(args.replay))
+            print("replaying %d recorded finding(s) of %s by re-running the check on %s:" % (len(rp.get("findings", [])), rp.get("property"), args.repo))
+            for f in rp.get("findings", [])[:10]:
+                print("  recorded: %s %s %s" % (f.get("rule"), f.get("construct"), (f.get("what") or "")[:160]))
+        except Exception as e:
+            print("cannot read replay file %s: %s" % (args.replay, e))
     t0 = time.time()
     ctx = Ctx(prop, os.path.abspath(args.repo), args.tier, seed, jobs, args.replay)
     try:
